@@ -37,12 +37,25 @@ def aliasFree (o : Opts) (nodes : List Json) : Bool :=
 
 def setMode (o : Opts) : Bool := dispatchTag o != .list
 
+/-- class of KF-C01-identperm: under SetKeys with several keys the identity of an object combines the
+    hash codes of its key values SORTED, so two members whose key values are permutations of each
+    other across the keys share an identity although their key tuples differ -/
+def identPerm (o : Opts) (nodes : List Json) : Bool :=
+  match keysOf o with
+  | none => false
+  | some ks =>
+    let proj (kvs : List (String × Json)) : Json := .obj (kvs.filter (fun kv => ks.contains kv.1))
+    let objs := nodes.filterMap (fun n => match n with | .obj kvs => some kvs | _ => none)
+    objs.any (fun x => objs.any (fun y =>
+      identObj o x == identObj o y && !(equivB o (proj x) (proj y))))
+
 /-- C01 oracle on the implementation's outputs: the patch succeeded and its result is equivalent
     to `b` (model `equals` and the hash-free spec `equivB`). `implEq` is the implementation's own
     verdict `r.Equals(b, opts)`. -/
 def oracleC01 (o : Opts) (a b : Json) (implEq : Bool) (out : Outcome Json) : String :=
   let bad (why : String) : String :=
-    if setMode o && !(aliasFree o (subterms a ++ subterms b)) then "kf KF-C04-alias " ++ why
+    if identPerm o (subterms a ++ subterms b) then "kf KF-C01-identperm " ++ why
+    else if setMode o && !(aliasFree o (subterms a ++ subterms b)) then "kf KF-C04-alias " ++ why
     else "fail " ++ why
   match out with
   | .ok r =>
@@ -69,7 +82,8 @@ def hasPrecisionPair (o : Opts) (a b : Json) : Bool :=
 def oracleC04 (o : Opts) (a b : Json) (implEq implEqRev implRefl : Bool) : String :=
   let spec := equivB o a b
   let cls (why : String) : String :=
-    if setMode o && (hasNegZero a || hasNegZero b) && equivB o a b && !implEq then "kf KF-C04-negzero " ++ why
+    if identPerm o (subterms a ++ subterms b) then "kf KF-C01-identperm " ++ why
+    else if setMode o && (hasNegZero a || hasNegZero b) && equivB o a b && !implEq then "kf KF-C04-negzero " ++ why
     else if setMode o && !(aliasFree o (subterms a ++ subterms b)) then "kf KF-C04-alias " ++ why
     else "fail " ++ why
   if implEq != spec then cls s!"Equals={implEq} but the advertised equivalence says {spec}"
@@ -82,7 +96,8 @@ def oracleC05 (o : Opts) (a b : Json) (diffEmpty implEq : Bool) : String :=
   if diffEmpty == implEq then "ok"
   else
     let why := s!"diff empty={diffEmpty} but Equals={implEq}"
-    if hasPrecisionPair o a b then "kf KF-C05-precision " ++ why
+    if identPerm o (subterms a ++ subterms b) then "kf KF-C01-identperm " ++ why
+    else if hasPrecisionPair o a b then "kf KF-C05-precision " ++ why
     else if (hasNegZero a || hasNegZero b) then "kf KF-C05-negzero " ++ why
     else if setMode o && !(aliasFree o (subterms a ++ subterms b)) then "kf KF-C04-alias " ++ why
     else "fail " ++ why
@@ -179,7 +194,8 @@ partial def getAt (o : Opts) (n : Json) : Path → Option Json
 /-- C07: per-hunk facts and leave-one-out results (computed by the implementation) -/
 def oracleC07 (o : Opts) (a b : Json) (d : Diff) (loo : List (Outcome Json)) : String :=
   let cls (why : String) : String :=
-    if setMode o && !(aliasFree o (subterms a ++ subterms b)) then "kf KF-C04-alias " ++ why
+    if identPerm o (subterms a ++ subterms b) then "kf KF-C01-identperm " ++ why
+    else if setMode o && !(aliasFree o (subterms a ++ subterms b)) then "kf KF-C04-alias " ++ why
     else if hasNegZero a || hasNegZero b then "kf KF-C05-negzero " ++ why
     else if hasPrecisionPair o a b then "kf KF-C05-precision " ++ why
     else "fail " ++ why
